@@ -66,4 +66,54 @@ PROPS = {
             'kani': [{'files': KC + ['c07_codec.rs', 'c07_prio3.rs'], 'harnesses': ['p3c_input_share_leader', 'p3c_verify_state'], 'timeout': 1500}],
         },
     },
+    'C16': {
+        'level': 'other',
+        'explanation': 'Decided (Verus, unbounded): Histogram::new accepts exactly its documented domain and establishes well-formedness; Prio2::new never overflows and accepts exactly the lengths that fit the 2^20 subgroup; check_num_aggregators; all *_len accessors of Histogram/SumVec/MultihotCountVec/Sum compute without overflow on usable instances. Decided (Kani): Prio3::new, role_try_from (every usize id), random_size, wrong randomness length, wrong verifier-share length/count, out-of-range field bytes. Known finding: Histogram/SumVec/MultihotCountVec::new accept chunk lengths for which the length accessors overflow.',
+        'trusted': ['usize::next_power_of_two, u32::try_from std semantics (assume_specification / external_body)'],
+        'quick': {
+            'verus': [('flp_lens', 'unit'), ('flp_lens', 'unit_usable'), ('vdaf_guards', 'unit')],
+            'kani': [{'files': KC + ['sym_prio3.rs', 'c16_prio3.rs'],
+                      'harnesses': ['p3_role_try_from', 'p3_random_size', 'p3_new_guards', 'p3_shard_wrong_random_len', 'p3_vs2m_share_count_small', 'p3_vs2m_share_len']}],
+        },
+        'thorough': {
+            'kani': [{'files': KC + ['sym_prio3.rs', 'c16_prio3.rs'], 'harnesses': ['p3_vs2m_share_count_256', 'p3_vs2m_share_count_258'], 'timeout': 2400}],
+        },
+    },
+    'C05': {
+        'level': 'other',
+        'explanation': 'Decided (Verus, unbounded): for Histogram, SumVec, MultihotCountVec and Sum the declared proof_len/verifier_len/prove_rand_len/joint_rand_len equal the expressions Flp::prove/query build from the gadget parameters (arity + gadget_poly_len(degree, wire_poly_len(calls)) with the real wire_poly_len/gadget_poly_len extracted from flp.rs), without overflow on usable instances. Not decided: completeness, soundness, share-linearity of query, root-of-unity refusal (polynomial identities over NTT code).',
+        'trusted': ['gadget parameters (arity 2*chunk_length, degree 2, calls gadget_calls) are read off gadget() by hand'],
+        'quick': {'verus': [('flp_lens', 'unit')], 'kani': []},
+        'thorough': {},
+    },
+    'C18': {
+        'level': 'other',
+        'explanation': 'Decided (Kani, real generic Prio3 code instantiated with a recording XOF): the domain-separation tag is [VERSION,0,algorithm id,usage] for every id/usage; derive_query_rands / derive_joint_rand_seed / derive_helper_proofs_share / derive_prove_rands absorb exactly (key or seed, tag||ctx, binder) with ctx, nonce (all 16 bytes), num_proofs, aggregator id and all joint-rand parts in order; verifier_shares_to_message recomputes the seed from all parts. That differing transcripts make verification fail is the random-oracle property of the XOF (assumed). Not decided: the inline derivations inside shard_with_random/verify_init, Poplar1/IDPF bindings.',
+        'trusted': ['XOF = random oracle (differing transcripts give independent outputs)'],
+        'quick': {'verus': [], 'kani': [{'files': KC + ['sym_prio3.rs', 'c18_prio3.rs', 'c16_prio3.rs'],
+                                         'harnesses': ['p3_dst_tag', 'p3_query_rands_transcript', 'p3_joint_rand_seed_transcript', 'p3_helper_proofs_transcript', 'p3_prove_rands_transcript', 'p3_vs2m_decide_all_proofs']}]},
+        'thorough': {},
+    },
+    'C02': {
+        'level': 'other',
+        'explanation': 'Decided (Kani, real Prio3 code over a nondeterministic Type): the deterministic rejection guards the soundness argument relies on: exactly num_aggregators verifier shares of exactly the declared length or Err; decide() consulted for every proof and any false/Err => Err; joint-randomness seed recomputed from ALL parts in order; verify_next compares ALL seed bytes and releases no output share on mismatch. The soundness error bound itself is probabilistic: not decided.',
+        'trusted': ['FLP soundness (probabilistic)'],
+        'quick': {'verus': [], 'kani': [{'files': KC + ['sym_prio3.rs', 'c16_prio3.rs'],
+                                         'harnesses': ['p3_vs2m_share_count_small', 'p3_vs2m_share_len', 'p3_vs2m_decide_all_proofs', 'p3_verify_next_seed_compare']}]},
+        'thorough': {'kani': [{'files': KC + ['sym_prio3.rs', 'c16_prio3.rs'], 'harnesses': ['p3_vs2m_share_count_256', 'p3_vs2m_share_count_258'], 'timeout': 2400}]},
+    },
+    'C19': {
+        'level': 'other',
+        'explanation': 'Decided (Verus): Prio2::new accepts exactly input lengths with 2*next_pow2(n+1) <= 2^20 and never overflows; proof_length(n) == n + 3 + next_pow2(n+1) (data | f0 g0 h0 | packed points); single-use aggregation parameter rule. Field arithmetic of FieldPrio2: C09. Not decided: acceptance of 0/1 vectors and rejection of others (polynomial identity / soundness), query-point exclusion (needs pow contract), codecs.',
+        'trusted': [],
+        'quick': {'verus': [('vdaf_guards', 'unit'), ('fp_ops', 'unit', 32)], 'kani': []},
+        'thorough': {},
+    },
+    'C20': {
+        'level': 'other',
+        'explanation': 'Decided (Verus): Prio3 and Prio2 is_agg_param_valid(cur, prev) == prev.is_empty() for every history. Not decided: the Poplar1 rule (level strictly greater than the most recent, every prefix extends one of the most recent) and prefix-list validation: they are computed on bitvec values (out of reach of both engines, DESIGN R3/R4).',
+        'trusted': [],
+        'quick': {'verus': [('vdaf_guards', 'unit')], 'kani': []},
+        'thorough': {},
+    },
 }
